@@ -630,7 +630,25 @@ theorem step_sound {s0 : State K} {env : Env K} {A : Abs} {s : State K} (h : Rel
         · exact reslice_sound h _ _
         · exact scale_sound h _ _
         · exact center_sound h _
-      next hmap => simp at hf
+      next hmap =>
+        simp only [hmap, if_false] at hf ⊢
+        split at hf
+        next hfill =>
+          simp only [hfill, if_true]
+          simp only [Bool.and_eq_true] at hfill
+          obtain ⟨hl, hm⟩ := hfill
+          have hlink := h.link hl
+          have hstep : step env s (.guardXY c e) = s := by
+            cases e <;> simp [isFillXY] at hm
+            rename_i c'
+            simp only [step]
+            split
+            next hyes =>
+              cases c <;> cases c' <;> simp only [getXY] at hyes <;> cases hsx : s.x <;> cases hsy : s.y <;>
+                simp_all [fillXY, getXY]
+            · rfl
+          rw [hstep]; exact h
+        next hfill => simp at hf
   | guardRT c e =>
     simp only [astep] at hf ⊢
     split at hf
@@ -661,7 +679,25 @@ theorem step_sound {s0 : State K} {env : Env K} {A : Abs} {s : State K} (h : Rel
         rw [hstep]
         cases e <;> simp [isMapRT] at hm
         exact resliceP_sound h _ _
-      next hmap => simp at hf
+      next hmap =>
+        simp only [hmap, if_false] at hf ⊢
+        split at hf
+        next hfill =>
+          simp only [hfill, if_true]
+          simp only [Bool.and_eq_true] at hfill
+          obtain ⟨hl, hm⟩ := hfill
+          have hlink := h.linkP hl
+          have hstep : step env s (.guardRT c e) = s := by
+            cases e <;> simp [isFillRT] at hm
+            rename_i c'
+            simp only [step]
+            split
+            next hyes =>
+              cases c <;> cases c' <;> simp only [getRT] at hyes <;> cases hsx : s.r <;> cases hsy : s.t <;>
+                simp_all [getRT]
+            · rfl
+          rw [hstep]; exact h
+        next hfill => simp at hf
 
 theorem afillXY_sticky (A : Abs) (c : XY) (h : A.fail = true) : (afillXY A c).fail = true := by
   unfold afillXY
@@ -683,13 +719,17 @@ theorem astep_sticky (A : Abs) (e : Eff) (h : A.fail = true) : (astep A e).fail 
     · exact h
     · split
       · exact ih A h
-      · rfl
+      · split
+        · exact h
+        · rfl
   | guardRT c e ih =>
     simp only [astep]; split
     · exact h
     · split
       · exact ih A h
-      · rfl
+      · split
+        · exact h
+        · rfl
   | reslice c k => cases c <;> simp [astep, asetC, h]
   | resliceP c k => cases c <;> simp [astep, asetP, h]
   | scale c v => cases c <;> simp [astep, asetC, spoilRT, h]
